@@ -16,7 +16,8 @@ package migration
 //            2 SetPod     exists uid node sched ctrl
 //            3 SetBoundPod state(0 missing 1 not ready 2 ready)
 //            4 Tick       seconds
-//            5 Restart
+//            5 Restart    (new Reconciler: empty assumed cache, freshly listed informer)
+//            6 Stale      a1 = k: the next Reconcile reads the job as it was k job-writes ago (lagging informer)
 // observable: per op   nEff, nEff x (kind ok + 10 stamp ints), 14 job ints, 3 reservation ints
 
 import (
@@ -160,6 +161,16 @@ type vtC17World struct {
 	nwrite  int
 	effects []int64
 	neff    int64
+	// versions of the job the informer can still serve (oldest first; last = current) and the lag of the
+	// next reconcile's read
+	snaps []*sev1alpha1.PodMigrationJob
+	lag   int64
+}
+
+func (w *vtC17World) snapshot(obj client.Object) {
+	if job, ok := obj.(*sev1alpha1.PodMigrationJob); ok {
+		w.snaps = append(w.snaps, job.DeepCopy())
+	}
 }
 
 func (w *vtC17World) fail() bool {
@@ -277,17 +288,36 @@ func (w *vtC17World) funcs() interceptor.Funcs {
 			}
 			return err
 		},
+		Get: func(ctx context.Context, c client.WithWatch, key client.ObjectKey, obj client.Object, opts ...client.GetOption) error {
+			if job, ok := obj.(*sev1alpha1.PodMigrationJob); ok && w.lag > 0 && len(w.snaps) > 1 {
+				k := int(w.lag)
+				if k > len(w.snaps)-1 {
+					k = len(w.snaps) - 1
+				}
+				w.snaps[len(w.snaps)-1-k].DeepCopyInto(job)
+				return nil
+			}
+			return c.Get(ctx, key, obj, opts...)
+		},
 		Update: func(ctx context.Context, c client.WithWatch, obj client.Object, opts ...client.UpdateOption) error {
 			if w.fail() {
 				return errVtC17
 			}
-			return c.Update(ctx, obj, opts...)
+			err := c.Update(ctx, obj, opts...)
+			if err == nil {
+				w.snapshot(obj)
+			}
+			return err
 		},
 		SubResourceUpdate: func(ctx context.Context, c client.Client, sub string, obj client.Object, opts ...client.SubResourceUpdateOption) error {
 			if w.fail() {
 				return errVtC17
 			}
-			return c.SubResource(sub).Update(ctx, obj, opts...)
+			err := c.SubResource(sub).Update(ctx, obj, opts...)
+			if err == nil {
+				w.snapshot(obj)
+			}
+			return err
 		},
 	}
 }
@@ -530,6 +560,11 @@ func vtC17Exec(in []int64) []int64 {
 			panic(err)
 		}
 	}
+	cur := &sev1alpha1.PodMigrationJob{}
+	if err := w.base.Get(ctx, types.NamespacedName{Name: vtC17JobName}, cur); err != nil {
+		panic(err)
+	}
+	w.snaps = []*sev1alpha1.PodMigrationJob{cur}
 	now := int64(0)
 	var obs []int64
 	for i := 0; i < nops; i++ {
@@ -539,6 +574,7 @@ func vtC17Exec(in []int64) []int64 {
 		case 0:
 			w.mask, w.nwrite = op[1], 0
 			_, _ = w.rec.Reconcile(ctx, reconcile.Request{NamespacedName: types.NamespacedName{Name: vtC17JobName}})
+			w.lag = 0
 		case 1:
 			w.setRes(op[1:])
 		case 2:
@@ -551,6 +587,9 @@ func vtC17Exec(in []int64) []int64 {
 		case 5:
 			w.gen++
 			w.newReconciler()
+			w.snaps = w.snaps[len(w.snaps)-1:]
+		case 6:
+			w.lag = op[1]
 		}
 		obs = append(obs, w.neff)
 		obs = append(obs, w.effects...)
@@ -682,8 +721,14 @@ func (g *vtC17G) noise() {
 		g.randomPod()
 	case k < 82:
 		g.op(3, int64(g.r.Intn(3)))
-	case k < 92:
+	case k < 90:
 		g.op(4, int64(g.r.Intn(6)))
+	case k < 96:
+		// a lagging informer read, usually served right away
+		g.op(6, int64(1+g.r.Intn(4)))
+		if g.r.Intn(4) != 0 {
+			g.reconcile()
+		}
 	default:
 		g.op(5)
 	}
@@ -809,7 +854,7 @@ func vtC17Gen(r *rand.Rand, i int) (string, []int64) {
 		step(g.reconcile)
 		step(func() { g.op(1, 0) }) // reservation deleted
 		step(g.reconcile)
-	case family < 70: // a reservation that must not lead to an eviction
+	case family < 68: // a reservation that must not lead to an eviction
 		label = "script:refuse"
 		step(func() { g.pod(uid, node, 2, ctrl) })
 		step(g.reconcile)
@@ -829,7 +874,27 @@ func vtC17Gen(r *rand.Rand, i int) (string, []int64) {
 		}
 		step(g.reconcile)
 		step(g.reconcile)
-	case family < 80: // the eviction call fails, then the world changes
+	case family < 78: // a lagging informer serves an intermediate version of the job
+		label = "script:lag"
+		rref0 = int64(r.Intn(2))
+		if rref0 == 1 {
+			step(func() { g.res(1, 2, node%3+1, 1, 0, 1, 0, 0, 0) })
+		}
+		step(func() { g.pod(uid, node, 2, ctrl) })
+		step(g.reconcile)
+		if rref0 == 0 {
+			step(func() { g.res(1, 2, g.otherNode(), 1, 0, 1, 0, 0, 0) })
+			step(g.reconcile)
+		}
+		for k := 1 + r.Intn(3); k > 0; k-- {
+			if r.Intn(5) == 0 {
+				step(func() { g.op(5) })
+			}
+			step(func() { g.op(6, int64(1+r.Intn(4))) })
+			step(g.reconcile)
+		}
+		step(g.reconcile)
+	case family < 86: // the eviction call fails, then the world changes
 		label = "script:retry"
 		step(func() { g.pod(uid, node, 2, ctrl) })
 		step(g.reconcile)
